@@ -443,9 +443,17 @@ class Gen:
                 elif k < 0.85:
                     rng = f"{self.r.choice(['6', '5'])}, {self.r.choice(['0', '1'])}, {self.r.choice(['-1', '-2'])}"
                     self.used.add("for_range_negative_step")
-                elif k < 0.93:
+                elif k < 0.89:
                     rng = f"{self.r.choice(DEVS[:6])}.Idle % 4"
                     self.used.add("for_range_dynamic_bound")
+                elif k < 0.93:
+                    # start / stop / step given by names that hold a constant (assigned once)
+                    c1, c2 = self.names.new("n"), self.names.new("n")
+                    up = self.r.random() < 0.5
+                    out.append(f"{pad}{c1} = {self.r.choice(['2', '1']) if up else self.r.choice(['-1', '-2'])}")
+                    out.append(f"{pad}{c2} = {self.r.choice(['5', '6'])}")
+                    rng = f"0, {c2}, {c1}" if up else f"{c2}, 0, {c1}"
+                    self.used.add("for_range_named_constants")
                 else:
                     # bound (and sometimes step) held in a local whose last textual use is the loop header: the
                     # emitted test and increment read it on every iteration
